@@ -239,12 +239,12 @@ prop(
 
 prop(
     "C11",
-    ["LolHtml.Thm.C11", "LolHtml.Thm.C11_General", "LolHtml.Thm.C11_General_End", "LolHtml.Thm.Full", "LolHtml.Thm.Full16", "LolHtml.Thm.Full17", "LolHtml.Thm.Full24", "LolHtml.Thm.Full26", "LolHtml.Thm.Full27", "LolHtml.Thm.Full28"],
+    ["LolHtml.Thm.C11", "LolHtml.Thm.C11_General", "LolHtml.Thm.C11_General_End", "LolHtml.Thm.Full", "LolHtml.Thm.Full16", "LolHtml.Thm.Full17", "LolHtml.Thm.Full26", "LolHtml.Thm.Full27"],
     [{"lane": "fault", "n_quick": 4000, "n_thorough": 100000},
      {"lane": "full", "n_quick": 2000, "n_thorough": 40000},
      {"lane": "proto", "n_quick": 5000, "n_thorough": 100000, "impl_only": True}],
     LEX_RULE + "; lane fault = lane lex plus a handler failure injected at token index 1..8, graceful flags, memory limit and preallocation sweeps (model vs real TransformStream); lane proto (implementation only): public HtmlRewriter in all 36 encodings with end / bail-out content, token mutations with empty strings, a failure injected at handler invocation index 1..11 or by memory limit, graceful flags on/off, preallocation sizes, cuts anywhere: byte preservation and bail-out handler count",
-    ["REAL controller, unconditional (Thm/Full17, Full26, Full27): Full_real_eq_clean — for every configuration, settings record and chunking the complete run write* ; end of the whole model with the real controller EQUALS the run with the cleaned controller, states and results, failures included (the earlier internal-class alternative is removed: RelQ.parse_eq_of_agree, two sinks that agree on every invariant state parse identically for both directives); hence C11_bailout_general_real_all and C11_bailout_general_end_real_all: the bail-out shape for the real controller for EVERY error (handler errors included), with no hypothesis about the run; C14_ranges_real_all (Thm/Full28; with Thm/Full24 audited here because Thm/C14_Locations and package full define the same auxiliary name): the source ranges logged by the REAL controller are well-formed, ordered and disjoint for every configuration, settings record and chunking, no run hypothesis (Full_real_eq_clean_HL: the logged real and cleaned runs are equal, log included)",
+    ["REAL controller, unconditional (Thm/Full17, Full26, Full27): Full_real_eq_clean — for every configuration, settings record and chunking the complete run write* ; end of the whole model with the real controller EQUALS the run with the cleaned controller, states and results, failures included (the earlier internal-class alternative is removed: RelQ.parse_eq_of_agree, two sinks that agree on every invariant state parse identically for both directives); hence C11_bailout_general_real_all and C11_bailout_general_end_real_all: the bail-out shape for the real controller for EVERY error (handler errors included), with no hypothesis about the run; C14_ranges_real_all (Thm/Full28, registered under C14): the source ranges logged by the REAL controller are well-formed, ordered and disjoint for every configuration, settings record and chunking, no run hypothesis (Full_real_eq_clean_HL: the logged real and cleaned runs are equal, log included)",
      "the exact sink CONTENT (written.take j ++ handler output ++ written.drop j) is proved for observing controllers (handlers that inspect and may FAIL at any invocation but do not mutate); for arbitrary controllers (rewriting, removing, failing) C11_bailout_general proves the shape: log at failure ++ bail-out handler output ++ the unemitted rest of the input from remaining_content_start, unmodified; the end() variant is C11_bailout_general_end (an end-handler failure is not guarded by should_bail_out_for: no bail-out handler runs, as coded); for the REAL controller model C11_bailout_general_real (Thm/Full16) gives the exact sink log at a failing write whose error is not the handler error (e.g. the memory limit), through Full_real_eq_clean_of_no_handler (real and cleaned write* runs coincide when no write returns the handler error)",
      "an end-handler failure happens after every received byte was emitted; the bail-out handlers are not run then (as coded and as the repository's own test expects)",
      MODEL_SCOPE],
@@ -463,11 +463,11 @@ prop(
 
 prop(
     "C14",
-    ["LolHtml.Thm.C14_Locations", "LolHtml.Thm.C14_TextNodes"],
+    ["LolHtml.Thm.C14_Locations", "LolHtml.Thm.C14_TextNodes", "LolHtml.Thm.Full24", "LolHtml.Thm.Full28"],
     [{"lane": "attrs", "n_quick": 2000, "n_thorough": 20000}, {"lane": "lex", "n_quick": 2000, "n_thorough": 30000},
      {"lane": "enc", "n_quick": 2000, "n_thorough": 20000}],
     LEX_RULE + "; lane enc (package enc's decoder lane, secondary here): the source ranges of the decoder-level text chunks (contiguous, covering the text node, closing chunk at its end) are reported under C14 as well",
-    ["for the REAL controller model, which is provably not CtlClean, the range theorem is C14_ranges_real_all (Thm/Full28, audited with property C11's modules because Thm/C14_Locations and package full define the same auxiliary name and cannot be imported into one audit file): ordered, disjoint, well-formed logged ranges for every configuration, settings record and chunking, no hypothesis about the run",
+    ["for the REAL controller model, which is provably not CtlClean, the range theorem is C14_ranges_real_all (Thm/Full28, through the logging ghost of Thm/Full24 and Full_real_eq_clean_HL: the logged real and cleaned runs are equal, log included): ordered, disjoint, well-formed logged ranges for every configuration, settings record and chunking, no hypothesis about the run",
      "C14_ranges_all_controllers assumes CtlClean (an error returned by a handler is a handler-class error, not one of the model's markers for a Rust panic) and the decidable table side-conditions WfTable (package inv) and EmitsChecked, both evaluated on the generated table; C14_text_contiguous and C14_independent_of_rewrites need EmitsChecked only and no assumption on the controller",
      "text-node theorems are about the tokens the dispatcher model hands over (one chunk per text lexeme plus the closing chunk); the split of one lexeme into decoder chunks is package enc's model (C13), joined by C14_text_node_decoder_ranges; that a text node's lexemes are what the standard calls one text node is C01/C03's subject",
      MODEL_SCOPE],
